@@ -31,7 +31,7 @@ inductive Elem
   | kwA                                          -- a
   | bnode (label : List Char)                    -- _:label
   | lit (content : List Item) (sf : LitSuffix)   -- "…" / "…"@tag / "…"^^dt
-  | int (ds : List Char)                         -- 42
+  | int (ds : List Char)                         -- 42, -7, +3
 deriving DecidableEq, Repr
 
 def DtSpelling.chars : DtSpelling → List Char
@@ -102,7 +102,7 @@ def Elem.Valid (resolve : List Char → List Char → List Char) (ctx : Ctx) : E
   | .kwA => True
   | .bnode l => l ≠ [] ∧ ∀ c ∈ l, plainChar c
   | .lit content sf => contentOk content ∧ sf.Valid resolve ctx
-  | .int ds => ds ≠ [] ∧ ∀ c ∈ ds, c.isDigit = true
+  | .int ds => ∃ sign body, ds = sign ++ body ∧ (sign = [] ∨ sign = ['+'] ∨ sign = ['-']) ∧ body ≠ [] ∧ ∀ c ∈ body, c.isDigit = true
 
 def RDF_TYPE : String := "http://www.w3.org/1999/02/22-rdf-syntax-ns#type"
 
